@@ -159,7 +159,7 @@ impl MclySubchunk {
         }
 
         let layer_count = header.size / 16;
-        let mut layers = Vec::with_capacity(layer_count as usize);
+        let mut layers = Vec::with_capacity((layer_count as usize).min(1 << 16));
 
         for _ in 0..layer_count {
             let texture_id = context.reader.read_u32_le()?;
@@ -197,7 +197,7 @@ impl McrfSubchunk {
 
         // Each index is 4 bytes
         let count = header.size / 4;
-        let mut indices = Vec::with_capacity(count as usize);
+        let mut indices = Vec::with_capacity((count as usize).min(1 << 16));
 
         for _ in 0..count {
             let index = context.reader.read_u32_le()?;
@@ -226,7 +226,7 @@ impl McrdSubchunk {
 
         // Each index is 4 bytes
         let count = header.size / 4;
-        let mut indices = Vec::with_capacity(count as usize);
+        let mut indices = Vec::with_capacity((count as usize).min(1 << 16));
 
         for _ in 0..count {
             let index = context.reader.read_u32_le()?;
@@ -256,8 +256,7 @@ impl McshSubchunk {
         // Shadow map should be 8x8 values = 64 bytes
         // But there might be padding or other formats
 
-        let mut shadow_map = vec![0u8; header.size as usize];
-        context.reader.read_exact(&mut shadow_map)?;
+        let mut shadow_map = crate::chunk_header::read_vec(context.reader, header.size as usize)?;
 
         Ok(Self { shadow_map })
     }
@@ -279,8 +278,7 @@ impl McalSubchunk {
     ) -> Result<Self> {
         header.expect_magic(b"MCAL")?;
 
-        let mut data = vec![0u8; header.size as usize];
-        context.reader.read_exact(&mut data)?;
+        let mut data = crate::chunk_header::read_vec(context.reader, header.size as usize)?;
 
         Ok(Self { data })
     }
@@ -498,7 +496,7 @@ impl MccvSubchunk {
 
         // Each color is 4 bytes (BGRA)
         let count = header.size / 4;
-        let mut colors = Vec::with_capacity(count as usize);
+        let mut colors = Vec::with_capacity((count as usize).min(1 << 16));
 
         for _ in 0..count {
             let mut color = [0; 4];
